@@ -85,6 +85,51 @@ theorem try_from_borrowed_ok_wfu (s u : List Nat) (h : tryFromBorrowed s = .ok u
   · rw [h1] at h; cases h; exact ⟨hw, rfl⟩
   · rw [h1] at h; cases h
 
+/-- **position- and length-independence of the rejection**: a NUL at ANY index other than the last one —
+whatever precedes it, however long the operand is, and whether or not a terminator is present as well
+(`post` may end in NUL) — is the "out of place" error of both constructor families.  There is no
+window of positions, and no operand length, for which an interior NUL is accepted. -/
+theorem nul_anywhere_rejected (pre post : List Nat) (hpost : post ≠ []) :
+    tryFromBorrowed (pre ++ 0 :: post) = .err .interior ∧ tryFromOwned (pre ++ 0 :: post) = .err .interior := by
+  have h0 : ¬ (0 ∉ pre ++ 0 :: post) := by simp
+  have hw : ¬ WFU (pre ++ 0 :: post) := by
+    intro hw
+    obtain ⟨c, hc', hc⟩ := (wfu_iff _).1 hw
+    rcases List.eq_nil_or_concat post with rfl | ⟨post', z, rfl⟩
+    · exact hpost rfl
+    · have h2 : c ++ [0] = (pre ++ 0 :: post') ++ [z] := by simpa using hc'.symm
+      have h3 := List.append_inj' h2 (by simp)
+      exact hc (by rw [h3.1]; simp)
+  constructor
+  · rcases try_from_borrowed_sound (pre ++ 0 :: post) with ⟨h, _⟩ | ⟨h, _⟩ | ⟨_, h⟩
+    · exact absurd h h0
+    · exact absurd h hw
+    · exact h
+  · rcases try_from_owned_sound (pre ++ 0 :: post) with ⟨h, _⟩ | ⟨h, _⟩ | ⟨_, h⟩
+    · exact absurd h h0
+    · exact absurd h hw
+    · exact h
+
+/-- … and a well-formed string of any length is accepted unchanged (content of `n` arbitrary non-NUL bytes) -/
+theorem long_content_accepted (c : List Nat) (hc : 0 ∉ c) :
+    tryFromBorrowed (c ++ [0]) = .ok (c ++ [0]) ∧ tryFromOwned (c ++ [0]) = .ok (c ++ [0]) ∧
+    tryFromOwned c = .ok (c ++ [0]) := by
+  have hw := wfu_snoc hc
+  have hx := input_classes_exclusive (c ++ [0])
+  refine ⟨?_, ?_, ?_⟩
+  · rcases try_from_borrowed_sound (c ++ [0]) with ⟨h, _⟩ | ⟨_, h⟩ | ⟨h, _⟩
+    · exact absurd ⟨h, hw⟩ hx.1
+    · exact h
+    · exact absurd ⟨hw, h⟩ hx.2.2
+  · rcases try_from_owned_sound (c ++ [0]) with ⟨h, _⟩ | ⟨_, h⟩ | ⟨h, _⟩
+    · exact absurd ⟨h, hw⟩ hx.1
+    · exact h
+    · exact absurd ⟨hw, h⟩ hx.2.2
+  · rcases try_from_owned_sound c with ⟨_, h⟩ | ⟨h, _⟩ | ⟨h, _⟩
+    · exact h
+    · exact absurd ⟨hc, h⟩ (input_classes_exclusive c).1
+    · exact absurd ⟨hc, h⟩ (input_classes_exclusive c).2.1
+
 /-- **const validator** behind `from_str_checked` / `unix_lit!`: accepts exactly the well-formed byte
 strings; its only other outcome is the (compile-time) panic -/
 theorem const_validate_iff (s : List Nat) :
@@ -237,6 +282,13 @@ example : parentPath [47, 97, 0] = .ok (some [47, 0]) := by decide
 example : parentPath [97, 47, 98, 0] = .ok (some [97, 0]) := by decide
 example : pathFileName [97, 47, 98, 0] = .ok (some [98, 0]) := by decide
 example : fileUnixName [97, 0, 98, 0xff] = .ok [97, 0] := by decide
+/-- beyond the short range: a NUL at index 8 of an 18-byte terminated operand, and at index 300 of a 4097-byte one -/
+example : tryFromBorrowed (List.replicate 8 97 ++ 0 :: (List.replicate 8 97 ++ [0])) = .err .interior :=
+  (nul_anywhere_rejected _ _ (snoc_ne_nil _ _)).1
+example : tryFromBorrowed (List.replicate 300 97 ++ 0 :: (List.replicate 3795 97 ++ [0])) = .err .interior :=
+  (nul_anywhere_rejected _ _ (snoc_ne_nil _ _)).1
+example : tryFromBorrowed (List.replicate 4096 97 ++ [0]) = .ok (List.replicate 4096 97 ++ [0]) :=
+  (long_content_accepted _ (not_mem_replicate _ (by decide))).1
 /-- an interior NUL coming out of a format argument passes through `from_format` (outside the property:
 "for NUL-free inputs") — recorded, not hidden -/
 example : fromFormat [97, 0, 98] = .ok [97, 0, 98, 0] := by decide
